@@ -119,6 +119,297 @@ fn add_generics(p: &mut Project) {
     p.tags.push("generics".to_string());
 }
 
+// ------------------------------------------------------------------------------------------------
+// hand-written project shapes the random generator does not reach
+
+fn proj(id: &str, tags: &[&str], files: &[(&str, String)]) -> Project {
+    Project {
+        id: format!("tpl-{}", id),
+        kind: "template",
+        files: files.iter().map(|(f, c)| (f.to_string(), c.clone())).collect(),
+        tags: tags.iter().map(|t| t.to_string()).collect(),
+    }
+}
+
+fn lets(n: usize) -> String {
+    let mut s = String::from("    let v0 = x;\n");
+    for i in 1..=n {
+        s.push_str(&format!("    let v{} = v{} + {};\n", i, i - 1, i % 7));
+    }
+    s.push_str(&format!("    v{}\n", n));
+    s
+}
+
+/// nested calls `inc(inc(… x …))`; kept shallow: compile time doubles with every level (whole-program and
+/// separate alike - C04's business)
+fn nested_calls(n: usize) -> String {
+    format!("{}x{}", "inc(".repeat(n), ")".repeat(n))
+}
+
+fn nested_parens(n: usize) -> String {
+    let mut s = String::new();
+    for i in 0..n {
+        s.push_str(&format!("({} + ", i % 5));
+    }
+    s.push('x');
+    s.push_str(&")".repeat(n));
+    s
+}
+
+fn nested_ifs(n: usize) -> String {
+    let mut s = String::new();
+    for i in 0..n {
+        s.push_str(&format!("{}if x > {} {{\n", "    ".repeat(i + 1), i));
+    }
+    s.push_str(&format!("{}x + {}\n", "    ".repeat(n + 1), n));
+    for i in (0..n).rev() {
+        s.push_str(&format!("{}}} else {{ {} }}\n", "    ".repeat(i + 1), i));
+    }
+    s
+}
+
+pub fn templates(quick: bool) -> Vec<Project> {
+    let mut v = Vec::new();
+    let s = |x: &str| x.to_string();
+    // ---- packages that declare only types / traits / extern types (no function, no impl method)
+    v.push(proj("types-only", &["types-only-package"], &[
+        ("main.gom", s("package Main\nimport Types\nimport Ops\n\nfn main() {\n    let p = Types::Pixel { x: 1, color: Types::Color::Blue(7) };\n    string_println(Ops::describe(p));\n    let q = Types::Pixel { x: 2, color: Types::Color::Red };\n    string_println(int32_to_string(q.x) + Ops::describe(q));\n}\n")),
+        ("Types/lib.gom", s("package Types\n\nenum Color {\n    Red,\n    Green,\n    Blue(int32),\n}\n\nstruct Pixel {\n    x: int32,\n    color: Color,\n}\n")),
+        ("Ops/lib.gom", s("package Ops\nimport Types\n\nfn describe(p: Types::Pixel) -> string {\n    match p.color {\n        Types::Color::Red => \"red\",\n        Types::Color::Green => \"green\",\n        Types::Color::Blue(n) => \"blue\" + int32_to_string(n),\n    }\n}\n")),
+    ]));
+    v.push(proj("types-only-generic", &["types-only-package", "generics"], &[
+        ("main.gom", s("package Main\nimport Types\n\nfn get[T](o: Types::Opt[T], d: T) -> T {\n    match o {\n        Types::Opt::Non => d,\n        Types::Opt::Som(v) => v,\n    }\n}\n\nfn main() {\n    let b = Types::Box { it: 4, tag: \"t\" };\n    string_println(int32_to_string(get(Types::Opt::Som(b.it), 0) + get(Types::Opt::Non, 3)));\n    string_println(get(Types::Opt::Som(b.tag), \"\"));\n}\n")),
+        ("Types/lib.gom", s("package Types\n\nenum Opt[T] {\n    Non,\n    Som(T),\n}\n\nstruct Box[T] {\n    it: T,\n    tag: string,\n}\n")),
+    ]));
+    v.push(proj("trait-only-dyn", &["trait-only-package", "dyn"], &[
+        ("main.gom", s("package Main\nimport Api\nimport Impl\n\nfn show(d: dyn Api::Show) -> string {\n    Api::Show::show(d)\n}\n\nfn main() {\n    string_println(show(Impl::P { v: 3 }));\n    string_println(show(Impl::Q { s: \"q\" }));\n}\n")),
+        ("Api/lib.gom", s("package Api\n\ntrait Show {\n    fn show(Self) -> string;\n}\n")),
+        ("Impl/lib.gom", s("package Impl\nimport Api\n\nstruct P {\n    v: int32,\n}\n\nstruct Q {\n    s: string,\n}\n\nimpl Api::Show for P {\n    fn show(self: P) -> string {\n        \"P\" + int32_to_string(self.v)\n    }\n}\n\nimpl Api::Show for Q {\n    fn show(self: Q) -> string {\n        \"Q\" + self.s\n    }\n}\n")),
+    ]));
+    v.push(proj("trait-only-bound", &["trait-only-package", "bounds"], &[
+        ("main.gom", s("package Main\nimport Api\n\nstruct P {\n    v: int32,\n}\n\nimpl Api::Show for P {\n    fn show(self: P) -> string {\n        \"P\" + int32_to_string(self.v)\n    }\n}\n\nfn twice[T: Api::Show](t: T) -> string {\n    Api::Show::show(t)\n}\n\nfn main() {\n    string_println(twice(P { v: 5 }));\n}\n")),
+        ("Api/lib.gom", s("package Api\n\ntrait Show {\n    fn show(Self) -> string;\n}\n")),
+    ]));
+    v.push(proj("types-and-traits-chain", &["types-only-package", "trait-only-package", "dyn"], &[
+        ("main.gom", s("package Main\nimport Model\nimport Api\nimport Svc\n\nfn main() {\n    let u = Model::User { id: 7, role: Model::Role::Admin(2) };\n    string_println(Svc::render(u));\n    let d: dyn Api::Named = Svc::W { u: Model::User { id: 1, role: Model::Role::Guest } };\n    string_println(Api::Named::name(d));\n}\n")),
+        ("Model/lib.gom", s("package Model\n\nenum Role {\n    Guest,\n    Admin(int32),\n}\n\nstruct User {\n    id: int32,\n    role: Role,\n}\n")),
+        ("Api/lib.gom", s("package Api\n\ntrait Named {\n    fn name(Self) -> string;\n}\n")),
+        ("Svc/lib.gom", s("package Svc\nimport Model\nimport Api\n\nstruct W {\n    u: Model::User,\n}\n\nimpl Api::Named for W {\n    fn name(self: W) -> string {\n        render(self.u)\n    }\n}\n\nfn render(u: Model::User) -> string {\n    match u.role {\n        Model::Role::Guest => \"guest\" + int32_to_string(u.id),\n        Model::Role::Admin(l) => \"admin\" + int32_to_string(u.id + l),\n    }\n}\n")),
+    ]));
+    v.push(proj("extern-type-only", &["extern-only-package"], &[
+        ("main.gom", s("package Main\nimport Ext\n\nextern \"go\" \"time\" duration(nanos: int32) -> Ext::Duration\n\nfn keep(d: Ext::Duration) -> int32 {\n    1\n}\n\nfn main() {\n    string_println(int32_to_string(keep(duration(5))));\n}\n")),
+        ("Ext/lib.gom", s("package Ext\n\nextern type Duration\n")),
+    ]));
+    // ---- packages with zero items
+    v.push(proj("empty-package", &["empty-package"], &[
+        ("main.gom", s("package Main\nimport Empty\n\nfn main() {\n    string_println(\"m\");\n}\n")),
+        ("Empty/lib.gom", s("package Empty\n")),
+    ]));
+    v.push(proj("empty-package-between", &["empty-package"], &[
+        ("main.gom", s("package Main\nimport Mid\n\nfn main() {\n    string_println(\"m\");\n}\n")),
+        ("Mid/lib.gom", s("package Mid\nimport Leaf\n")),
+        ("Leaf/lib.gom", s("package Leaf\n\nfn f() -> int32 {\n    1\n}\n")),
+    ]));
+    // ---- deep nesting
+    let depths: &[usize] = if quick { &[60, 200] } else { &[60, 200, 1000] };
+    for &n in depths {
+        v.push(proj(&format!("lets-{}", n), &["deep-lets"], &[
+            ("main.gom", format!("package Main\nimport Lib\n\nfn local(x: int32) -> int32 {{\n{}}}\n\nfn main() {{\n    string_println(int32_to_string(local(1) + Lib::deep(2)));\n}}\n", lets(n))),
+            ("Lib/lib.gom", format!("package Lib\n\nfn deep(x: int32) -> int32 {{\n{}}}\n", lets(n))),
+        ]));
+        v.push(proj(&format!("parens-{}", n), &["deep-expr"], &[
+            ("main.gom", format!("package Main\nimport Lib\n\nfn main() {{\n    string_println(int32_to_string(Lib::deep(2)));\n}}\n")),
+            ("Lib/lib.gom", format!("package Lib\n\nfn inc(x: int32) -> int32 {{\n    x + 1\n}}\n\nfn deep(x: int32) -> int32 {{\n    {} + {}\n}}\n", nested_parens(n), nested_calls(10))),
+        ]));
+        {
+            v.push(proj(&format!("ifs-{}", n), &["deep-ifs"], &[
+                ("main.gom", format!("package Main\nimport Lib\n\nfn main() {{\n    string_println(int32_to_string(Lib::deep(1000) + Lib::deep(3)));\n}}\n")),
+                ("Lib/lib.gom", format!("package Lib\n\nfn deep(x: int32) -> int32 {{\n{}}}\n", nested_ifs(n))),
+            ]));
+        }
+    }
+    // ---- the same name twice in one package (two files)
+    for (tag, first, second) in [("main-first", "main.gom", "z.gom"), ("main-last", "main.gom", "a.gom")] {
+        v.push(proj(&format!("dup-fn-Main-{}", tag), &["duplicate-fn", "Main"], &[
+            (first, s("package Main\n\nfn pick() -> string {\n    \"from-main-file\"\n}\n\nfn main() {\n    string_println(pick());\n}\n")),
+            (second, s("package Main\n\nfn pick() -> string {\n    \"from-other-file\"\n}\n")),
+        ]));
+    }
+    v.push(proj("dup-fn-lib", &["duplicate-fn", "library"], &[
+        ("main.gom", s("package Main\nimport Lib\n\nfn main() {\n    string_println(Lib::pick());\n}\n")),
+        ("Lib/a.gom", s("package Lib\n\nfn pick() -> string {\n    \"a\"\n}\n")),
+        ("Lib/b.gom", s("package Lib\n\nfn pick() -> string {\n    \"b\"\n}\n")),
+    ]));
+    v.push(proj("dup-fn-same-file", &["duplicate-fn", "one-file"], &[
+        ("main.gom", s("package Main\n\nfn pick() -> string {\n    \"first\"\n}\n\nfn pick() -> string {\n    \"second\"\n}\n\nfn main() {\n    string_println(pick());\n}\n")),
+    ]));
+    v.push(proj("dup-type-Main", &["duplicate-type", "Main"], &[
+        ("main.gom", s("package Main\n\nstruct T {\n    a: int32,\n}\n\nfn main() {\n    let t = T { a: 1 };\n    string_println(int32_to_string(t.a));\n}\n")),
+        ("a.gom", s("package Main\n\nstruct T {\n    a: int32,\n    b: string,\n}\n")),
+    ]));
+    v.push(proj("dup-type-lib", &["duplicate-type", "library"], &[
+        ("main.gom", s("package Main\nimport Lib\n\nfn main() {\n    string_println(int32_to_string(Lib::mk().a));\n}\n")),
+        ("Lib/a.gom", s("package Lib\n\nstruct T {\n    a: int32,\n}\n\nfn mk() -> T {\n    T { a: 1 }\n}\n")),
+        ("Lib/b.gom", s("package Lib\n\nenum T {\n    X,\n}\n")),
+    ]));
+    v.push(proj("dup-trait-Main", &["duplicate-trait", "Main"], &[
+        ("main.gom", s("package Main\n\ntrait Tr {\n    fn m(Self) -> int32;\n}\n\nimpl Tr for int32 {\n    fn m(self: int32) -> int32 {\n        self + 1\n    }\n}\n\nfn main() {\n    string_println(int32_to_string(Tr::m(1)));\n}\n")),
+        ("a.gom", s("package Main\n\ntrait Tr {\n    fn m(Self) -> int32;\n    fn k(Self) -> int32;\n}\n")),
+    ]));
+    // ---- imports of oneself and of the importer
+    v.push(proj("self-import-lib", &["self-import"], &[
+        ("main.gom", s("package Main\nimport Lib\n\nfn main() {\n    string_println(int32_to_string(Lib::f(1)));\n}\n")),
+        ("Lib/lib.gom", s("package Lib\nimport Lib\n\nfn f(x: int32) -> int32 {\n    x + 1\n}\n")),
+    ]));
+    v.push(proj("self-import-main", &["self-import"], &[
+        ("main.gom", s("package Main\nimport Main\n\nfn main() {\n    string_println(\"m\");\n}\n")),
+    ]));
+    v.push(proj("self-import-used", &["self-import"], &[
+        ("main.gom", s("package Main\nimport Lib\n\nfn main() {\n    string_println(int32_to_string(Lib::g(1)));\n}\n")),
+        ("Lib/lib.gom", s("package Lib\nimport Lib\n\nfn f(x: int32) -> int32 {\n    x + 1\n}\n\nfn g(x: int32) -> int32 {\n    Lib::f(x) * 2\n}\n")),
+    ]));
+    v.push(proj("import-the-importer", &["import-cycle"], &[
+        ("main.gom", s("package Main\nimport Lib\n\nfn h(x: int32) -> int32 {\n    x\n}\n\nfn main() {\n    string_println(int32_to_string(Lib::f(1)));\n}\n")),
+        ("Lib/lib.gom", s("package Lib\nimport Main\n\nfn f(x: int32) -> int32 {\n    x + 1\n}\n")),
+    ]));
+    v.push(proj("import-cycle-libs", &["import-cycle"], &[
+        ("main.gom", s("package Main\nimport Aa\n\nfn main() {\n    string_println(int32_to_string(Aa::f(1)));\n}\n")),
+        ("Aa/lib.gom", s("package Aa\nimport Bb\n\nfn f(x: int32) -> int32 {\n    x + 1\n}\n")),
+        ("Bb/lib.gom", s("package Bb\nimport Aa\n\nfn g(x: int32) -> int32 {\n    x + 2\n}\n")),
+    ]));
+    // ---- main.gom is not the first file of Main; definitions the entry file needs live in earlier and later files
+    v.push(proj("main-not-first", &["main-not-first"], &[
+        ("a.gom", s("package Main\n\nstruct S {\n    v: int32,\n}\n\ntrait Tr {\n    fn m(Self) -> int32;\n}\n")),
+        ("main.gom", s("package Main\n\nimpl Tr for S {\n    fn m(self: S) -> int32 {\n        self.v + helper()\n    }\n}\n\nfn main() {\n    string_println(int32_to_string(Tr::m(S { v: 1 })));\n}\n")),
+        ("z.gom", s("package Main\n\nfn helper() -> int32 {\n    40\n}\n")),
+    ]));
+    v.push(proj("main-not-first-impl-earlier", &["main-not-first"], &[
+        ("a.gom", s("package Main\n\nimpl Tr for S {\n    fn m(self: S) -> int32 {\n        self.v + 1\n    }\n}\n")),
+        ("main.gom", s("package Main\n\nstruct S {\n    v: int32,\n}\n\ntrait Tr {\n    fn m(Self) -> int32;\n}\n\nfn main() {\n    string_println(int32_to_string(Tr::m(S { v: 1 })));\n}\n")),
+    ]));
+    v
+}
+
+/// random mixtures: every library is a types-only, trait-only, empty or ordinary package; Main uses
+/// whatever they declare (construction, field access, match, impl of the foreign trait, dyn, bound)
+pub fn random_kinds_project(idx: usize, seed: u64) -> Project {
+    let mut rng = Rng::new(seed ^ 0xC14B).fork(idx as u64);
+    let n = 1 + rng.below(4);
+    let names = ["Pa", "Pb", "Pc", "Pd"];
+    let kinds: Vec<usize> = (0..n).map(|_| rng.below(4)).collect(); // 0 types, 1 traits, 2 empty, 3 code
+    let mut files: Vec<(String, String)> = Vec::new();
+    let mut main = String::from("package Main\n");
+    for p in &names[..n] {
+        main.push_str(&format!("import {}\n", p));
+    }
+    main.push_str("\nstruct Loc {\n    v: int32,\n}\n\n");
+    let mut body = String::from("    let acc = 0;\n");
+    let mut k_let = 0;
+    for (i, p) in names[..n].iter().enumerate() {
+        let mut src = format!("package {}\n", p);
+        // a library may import an earlier types-only library and mention its types
+        let dep = (0..i).find(|j| kinds[*j] == 0 && rng.chance(1, 2));
+        if let Some(j) = dep {
+            src.push_str(&format!("import {}\n", names[j]));
+        }
+        src.push('\n');
+        match kinds[i] {
+            0 => {
+                src.push_str(&format!("struct S{p} {{\n    v: int32,\n    t: string,\n}}\n\nenum E{p} {{\n    A{p},\n    B{p}(int32),\n}}\n"));
+                if let Some(j) = dep {
+                    src.push_str(&format!("\nstruct W{p} {{\n    inner: {d}::S{d},\n}}\n", d = names[j]));
+                }
+                k_let += 1;
+                body.push_str(&format!("    let s{k} = {p}::S{p} {{ v: {c}, t: \"t\" }};\n    let acc = acc + s{k}.v + string_len(s{k}.t);\n", k = k_let, c = 1 + rng.below(9)));
+                body.push_str(&format!("    let acc = acc + match {p}::E{p}::B{p}({c}) {{\n        {p}::E{p}::A{p} => 0,\n        {p}::E{p}::B{p}(q) => q,\n    }};\n", c = 1 + rng.below(9)));
+            }
+            1 => {
+                src.push_str(&format!("trait T{p} {{\n    fn m(Self) -> int32;\n}}\n"));
+                main.push_str(&format!("impl {p}::T{p} for Loc {{\n    fn m(self: Loc) -> int32 {{\n        self.v + {c}\n    }}\n}}\n\nfn via{p}[T: {p}::T{p}](t: T) -> int32 {{\n    {p}::T{p}::m(t)\n}}\n\nfn dyn{p}(d: dyn {p}::T{p}) -> int32 {{\n    {p}::T{p}::m(d)\n}}\n\n", c = 1 + rng.below(9)));
+                body.push_str(&format!("    let acc = acc + via{p}(Loc {{ v: 1 }}) + dyn{p}(Loc {{ v: 2 }});\n"));
+            }
+            2 => {}
+            _ => {
+                match dep {
+                    Some(j) => src.push_str(&format!("fn f{p}(x: int32) -> int32 {{\n    let s = {d}::S{d} {{ v: x, t: \"\" }};\n    s.v + {c}\n}}\n", d = names[j], c = 1 + rng.below(9))),
+                    None => src.push_str(&format!("fn f{p}(x: int32) -> int32 {{\n    x * {c}\n}}\n", c = 2 + rng.below(5))),
+                }
+                body.push_str(&format!("    let acc = acc + {p}::f{p}(acc);\n"));
+            }
+        }
+        files.push((format!("{}/lib.gom", p), src));
+    }
+    main.push_str(&format!("fn main() {{\n{}    string_println(int32_to_string(acc));\n}}\n", body));
+    files.insert(0, ("main.gom".to_string(), main));
+    let kn = ["types", "traits", "empty", "code"];
+    let mut tags: Vec<String> = kinds.iter().map(|k| format!("{}-only-package", kn[*k])).collect();
+    tags.sort();
+    tags.dedup();
+    Project { id: format!("kinds-{:03}", idx), kind: "random-kinds", files, tags }
+}
+
+/// witness projects kept under corpus/C14/<name>/ (a directory per project)
+pub fn corpus_witnesses() -> Vec<Project> {
+    let mut v = Vec::new();
+    let root = util::verif_root().join("corpus/C14");
+    let Ok(rd) = std::fs::read_dir(&root) else { return v };
+    let mut dirs: Vec<PathBuf> = rd.filter_map(|e| e.ok().map(|e| e.path())).filter(|p| p.join("main.gom").exists()).collect();
+    dirs.sort();
+    fn walk(d: &Path, prefix: &str, out: &mut Vec<(String, String)>) {
+        let Ok(rd) = std::fs::read_dir(d) else { return };
+        let mut es: Vec<PathBuf> = rd.filter_map(|e| e.ok().map(|e| e.path())).collect();
+        es.sort();
+        for p in es {
+            let name = p.file_name().unwrap().to_string_lossy().to_string();
+            if p.is_dir() {
+                walk(&p, &format!("{}{}/", prefix, name), out);
+            } else if name.ends_with(".gom") {
+                if let Ok(c) = std::fs::read_to_string(&p) {
+                    out.push((format!("{}{}", prefix, name), c));
+                }
+            }
+        }
+    }
+    for d in dirs {
+        let mut files = Vec::new();
+        walk(&d, "", &mut files);
+        v.push(Project { id: format!("corpus-C14-{}", d.file_name().unwrap().to_string_lossy()), kind: "witness", files, tags: vec![] });
+    }
+    v
+}
+
+/// package graph read off the source text: `package X` / `import Y` lines, reachable from Main
+fn text_graph(p: &Project, root: &Path) -> (BTreeMap<String, BTreeSet<String>>, BTreeMap<String, PathBuf>) {
+    let mut all: BTreeMap<String, BTreeSet<String>> = BTreeMap::new();
+    let mut dirs: BTreeMap<String, PathBuf> = BTreeMap::new();
+    for (rel, content) in &p.files {
+        let dir = match rel.rfind('/') {
+            Some(i) => root.join(&rel[..i]),
+            None => root.to_path_buf(),
+        };
+        let name = content.lines().find_map(|l| l.strip_prefix("package ")).map(|x| x.trim().to_string()).unwrap_or_else(|| "Main".to_string());
+        let e = all.entry(name.clone()).or_default();
+        for l in content.lines() {
+            if let Some(d) = l.strip_prefix("import ") {
+                e.insert(d.trim().to_string());
+            }
+        }
+        dirs.entry(name).or_insert(dir);
+    }
+    let mut reach: BTreeSet<String> = BTreeSet::new();
+    let mut todo = vec!["Main".to_string()];
+    while let Some(x) = todo.pop() {
+        if !all.contains_key(&x) || !reach.insert(x.clone()) {
+            continue;
+        }
+        for d in &all[&x] {
+            todo.push(d.clone());
+        }
+    }
+    let deps = all.into_iter().filter(|(k, _)| reach.contains(k)).collect();
+    (deps, dirs)
+}
+
 struct SepResult {
     outcome: String,
     go: Option<crate::sexp::S>,
@@ -217,20 +508,33 @@ fn run_project(p: &Project, root: &Path, cap: usize, rng: &mut Rng, out: &mut St
         packages::topo_sort_packages(&g)?;
         Ok(g)
     }));
-    let g = match graph {
-        Ok(Ok(g)) => g,
+    // the packages a user would build: what the compiler's own discovery finds or, when that fails (or to
+    // cross-check it), the packages reachable from Main through the `import` lines of the sources
+    let (tdeps, tdirs) = text_graph(p, root);
+    let (deps, dirs, discovery): (BTreeMap<String, BTreeSet<String>>, BTreeMap<String, PathBuf>, String) = match graph {
+        Ok(Ok(g)) => (
+            g.packages.iter().map(|(k, v)| (k.clone(), v.imports.iter().cloned().collect())).collect(),
+            g.package_dirs.iter().map(|(k, v)| (k.clone(), v.clone())).collect(),
+            g.discovery_order.join(","),
+        ),
         Ok(Err(e)) => {
             writeln!(out, "{}\tGRAPH\terr\t{}\t{}", id, util::stage_of(&e), esc_line(&diag_class(&e))).unwrap();
-            return;
+            (tdeps, tdirs, "text".to_string())
         }
         Err(pn) => {
             writeln!(out, "{}\tGRAPH\tpanic\t{}", id, esc_line(&util::panic_message(pn))).unwrap();
-            return;
+            (tdeps, tdirs, "text".to_string())
         }
     };
-    let deps: BTreeMap<String, BTreeSet<String>> = g.packages.iter().map(|(k, v)| (k.clone(), v.imports.iter().cloned().collect())).collect();
-    let dirs: BTreeMap<String, PathBuf> = g.package_dirs.iter().map(|(k, v)| (k.clone(), v.clone())).collect();
-    let (orders, total) = topo_orders(&deps, cap, rng);
+    // a package never waits for itself (check/build skip a self-import)
+    let deps: BTreeMap<String, BTreeSet<String>> = deps.into_iter().map(|(k, v)| { let vv = v.into_iter().filter(|d| *d != k).collect(); (k, vv) }).collect();
+    let (mut orders, total) = topo_orders(&deps, cap, rng);
+    if orders.is_empty() {
+        // an import cycle: no order satisfies it; try the packages by name with Main last
+        let mut o: Vec<String> = deps.keys().filter(|k| *k != "Main").cloned().collect();
+        o.push("Main".to_string());
+        orders.push(o);
+    }
     writeln!(
         out,
         "{}\tPROJECT\t{}\t{}\tpkgs={}\torders={}/{}\tdiscovery={}",
@@ -240,7 +544,7 @@ fn run_project(p: &Project, root: &Path, cap: usize, rng: &mut Rng, out: &mut St
         deps.len(),
         orders.len(),
         total,
-        g.discovery_order.join(",")
+        discovery
     )
     .unwrap();
     let mut seen: Vec<String> = Vec::new();
@@ -275,6 +579,10 @@ fn run_project(p: &Project, root: &Path, cap: usize, rng: &mut Rng, out: &mut St
     }
 }
 
+fn util_hash(s: &str) -> u64 {
+    s.bytes().fold(1469598103934665603u64, |h, b| (h ^ b as u64).wrapping_mul(1099511628211))
+}
+
 pub fn main(args: &util::Args) {
     util::quiet_panics();
     let quick = args.tier != "thorough";
@@ -282,6 +590,11 @@ pub fn main(args: &util::Args) {
     let root = util::scratch_dir("c14").join("proj");
     let mut rng = Rng::new(args.seed).fork(0xC14);
     let mut projects: Vec<Project> = c13::corpus_projects(true, &mut Rng::new(1)).into_iter().filter(|p| p.kind == "corpus-package").collect();
+    projects.extend(templates(quick));
+    projects.extend(corpus_witnesses());
+    for i in 0..(if quick { 16 } else { 120 }) {
+        projects.push(random_kinds_project(i, args.seed));
+    }
     let ngen = args.n.unwrap_or(if quick { 40 } else { 240 });
     for i in 0..ngen {
         projects.push(c13::gen_project(i, args.seed));
@@ -294,7 +607,20 @@ pub fn main(args: &util::Args) {
     }
     let cap = if quick { 6 } else { 120 };
     for p in &projects {
-        run_project(p, &root, cap, &mut rng, &mut out);
+        // deeply nested sources recurse deeply in every pass
+        if std::env::var("GV_TRACE").is_ok() { eprintln!("project {}", p.id); }
+        let (pp, rootb, mut r2) = (p.clone(), root.clone(), rng.fork(util_hash(&p.id)));
+        let piece = std::thread::Builder::new()
+            .stack_size(2 << 30)
+            .spawn(move || {
+                let mut o = String::new();
+                run_project(&pp, &rootb, cap, &mut r2, &mut o);
+                o
+            })
+            .unwrap()
+            .join()
+            .unwrap_or_else(|_| format!("{}\tWHOLE\tpanic\tthread died\n", p.id));
+        out.push_str(&piece);
     }
     let _ = std::fs::remove_dir_all(util::scratch_dir("c14"));
     let _ = std::fs::create_dir_all(&args.out);
